@@ -31,7 +31,7 @@ let run_case (line : string) : string =
             let pfxs k base = Stdlib.List.init k (fun j -> n (base + j)) in
             (* the UPDATE is described by its counts; the prefixes themselves do not matter to a bgp-in filter *)
             call (FilterUnits.bgp_view (FilterUnits.sess_prov (n 7) (n 0) (n (i_of asn)))
-                    (BmpModel.URoutes (n 0, pfxs na 0, n 1, n 0, pfxs nw 100)) (parse_attrs a))
+                    (BmpModel.URoutes (n 0, pfxs na 0, n 1, n 0, pfxs nw 100)) (parse_attrs a) false)
         | ["M"; k; asn; as2; a; na; nw] ->
             let na = i_of na and nw = i_of nw in
             let pfxs c base = Stdlib.List.init c (fun j -> n (base + j)) in
